@@ -371,7 +371,7 @@ def suite_values(ctx: Ctx) -> None:
     from mloda.core.abstract_plugins.components.hashable_dict import _make_hashable
 
     rng = ctx.rng
-    n = ctx.budget(1500, 40000)
+    n = ctx.budget(3000, 60000)
     reg = Reg()
     reqs, impls, cases = [], [], []
     for i in range(n):
@@ -415,7 +415,7 @@ def suite_values(ctx: Ctx) -> None:
     # make_hashable
     reqs, impls = [], []
     pairs = []
-    for (v, w, kind) in cases[: ctx.budget(1200, 30000)]:
+    for (v, w, kind) in cases[: ctx.budget(2500, 50000)]:
         try:
             mv = _make_hashable(v)
             jm = enc(mv, reg)
@@ -536,7 +536,7 @@ def suite_ops(ctx: Ctx) -> None:
     from mloda.core.abstract_plugins.components.feature_collection import Features
 
     rng = ctx.rng
-    n = ctx.budget(700, 20000)
+    n = ctx.budget(2000, 40000)
     reqs: List[Dict[str, Any]] = []
     impls: List[Dict[str, Any]] = []
     for _ in range(n):
@@ -928,7 +928,7 @@ def suite_ident(ctx: Ctx) -> None:
 
     G = IdGen(ctx)
     rng = ctx.rng
-    n = ctx.budget(2400, 60000)
+    n = ctx.budget(5000, 100000)
     kinds = ["feature", "feature", "feature", "options", "options", "hdict", "index", "joinspec", "link", "link", "param", "filter"]
     reqs, impls, objs = [], [], []
     for _ in range(n):
@@ -1143,7 +1143,7 @@ def suite_grouping(ctx: Ctx) -> None:
     rng = ctx.rng
     ep = ExecutionPlan()
     reg = Reg()
-    n = ctx.budget(600, 20000)
+    n = ctx.budget(1500, 30000)
     fws = [F.PyArrowTable, F.PandasDataFrame, F.PythonDictFramework]
     dts = [DataType.INT32, DataType.INT64, DataType.STRING]
     reqs, impls, sim_reqs, sim_real = [], [], [], []
@@ -1218,7 +1218,7 @@ def suite_levels(ctx: Ctx) -> None:
 
     rng = ctx.rng
     ep = ExecutionPlan()
-    n = ctx.budget(400, 10000)
+    n = ctx.budget(800, 15000)
     reqs, impls = [], []
     for _ in range(n):
         k = rng.randint(1, 7)
@@ -1328,7 +1328,7 @@ def suite_e2e(ctx: Ctx) -> None:
     import mloda_plugins.compute_framework.base_implementations.python_dict.python_dict_pyarrow_transformer  # noqa: F401
 
     rng = ctx.rng
-    n = ctx.budget(260, 6000)
+    n = ctx.budget(1000, 20000)
     PA, PD = F.PyArrowTable, F.PandasDataFrame
     for _case in range(n):
         calls: List[List[Obs]] = []
